@@ -22,7 +22,7 @@ func backlog(r *vk.Run) {
 	}
 	p, err := world.ProduceChain(ctx, spec, world.NewKeys("proposer"))
 	if err != nil {
-		r.Inconclusive("the aggregator producing the reference chain failed (not this property's business): " + "backlog chain: "+err.Error())
+		r.Inconclusive("the aggregator producing the reference chain failed (not this property's business): " + "backlog chain: " + err.Error())
 		return
 	}
 	f, err := world.NewFNPrepared(ctx, p, "", func(f *world.FN) {
